@@ -11,12 +11,15 @@ import (
 	"net"
 	"time"
 
+	"github.com/PurpleSec/escape"
 	"github.com/iDigitalFlame/xmt/c2/cfg"
 	"github.com/iDigitalFlame/xmt/c2/cout"
 	"github.com/iDigitalFlame/xmt/com"
 	"github.com/iDigitalFlame/xmt/data"
 	"github.com/iDigitalFlame/xmt/device"
 	"github.com/iDigitalFlame/xmt/device/local"
+	"github.com/iDigitalFlame/xmt/device/local/tags"
+	"github.com/iDigitalFlame/xmt/util"
 )
 
 // VerifC04Mux is a messager that processes every event at once with the real event.process
@@ -220,4 +223,66 @@ func VerifC04ReceiveFrags(l *Listener, id device.ID, n *com.Packet) (int, error)
 	}
 	err := receive(s, l, n)
 	return len(s.frags), err
+}
+
+// ---- the leaves of (*Session).JSON: what each call inside JSON() returns, in its order ----
+
+type VerifC04NetDev struct {
+	Name, Mac string
+	IPs       []string
+}
+type VerifC04Leaves struct {
+	ID, Hash                                string
+	Channel                                 bool
+	Full, User, Host, Ver, Arch, OS         string
+	Elev                                    bool
+	Caps                                    string
+	Domain                                  bool
+	PID, PPID                               string
+	Net                                     []VerifC04NetDev
+	Created, Last, Via, Sleep, Jitter, Kill string
+	Work                                    *[5]string
+	CName, Conn                             *string
+	Proxies                                 [][2]string
+}
+
+// VerifC04JSONLeaves evaluates the leaf expressions of (*Session).JSON on s (parent must be set).
+func VerifC04JSONLeaves(s *Session) VerifC04Leaves {
+	v := VerifC04Leaves{
+		ID: s.ID.String(), Hash: util.Uitoa(uint64(s.ID.Hash())), Channel: s.InChannel(), Full: s.ID.Full(),
+		User: escape.JSON(s.Device.User), Host: escape.JSON(s.Device.Hostname), Ver: escape.JSON(s.Device.Version),
+		Arch: s.Device.Arch().String(), OS: escape.JSON(s.Device.OS().String()), Elev: s.Device.IsElevated(),
+		Caps:   tags.ParseCapabilities(s.Device.OS() == device.Windows, s.Device.Capabilities),
+		Domain: s.Device.IsDomainJoined(), PID: util.Uitoa(uint64(s.Device.PID)), PPID: util.Uitoa(uint64(s.Device.PPID)),
+		Created: s.Created.Format(time.RFC3339), Last: s.Last.Format(time.RFC3339), Via: escape.JSON(s.host.String()),
+		Sleep: util.Uitoa(uint64(s.sleep)), Jitter: util.Uitoa(uint64(s.jitter)),
+	}
+	for i := range s.Device.Network {
+		d := VerifC04NetDev{Name: escape.JSON(s.Device.Network[i].Name), Mac: s.Device.Network[i].Mac.String()}
+		for x := range s.Device.Network[i].Address {
+			d.IPs = append(d.IPs, s.Device.Network[i].Address[x].String())
+		}
+		v.Net = append(v.Net, d)
+	}
+	if !s.kill.IsZero() {
+		v.Kill = s.kill.Format(time.RFC3339)
+	}
+	if s.work != nil {
+		v.Work = &[5]string{util.Uitoa(uint64(s.work.StartHour)), util.Uitoa(uint64(s.work.StartMin)),
+			util.Uitoa(uint64(s.work.EndHour)), util.Uitoa(uint64(s.work.EndMin)), s.work.String()}
+	}
+	if s.parent != nil {
+		n := escape.JSON(s.parent.name)
+		v.CName = &n
+		if t, ok := s.parent.listener.(stringer); ok {
+			c := escape.JSON(t.String())
+			v.Conn = &c
+		}
+	}
+	if !s.IsClient() {
+		for i := range s.proxies {
+			v.Proxies = append(v.Proxies, [2]string{escape.JSON(s.proxies[i].n), escape.JSON(s.proxies[i].b)})
+		}
+	}
+	return v
 }
